@@ -206,11 +206,18 @@ def _compute(mode, d, v):
 class Task:
     """Picklable task: identifies its input, logs, sleeps its planned delay, fails on plan."""
 
-    def __init__(self, log, plan, mode, items, live, from_epoch=False):
+    def __init__(self, log, plan, mode, items, live, from_epoch=False, one_argument=False):
         self.log, self.plan, self.mode, self.items, self.live = log, plan, mode, items, live
         self.from_epoch = from_epoch
+        # apply_pool of an iterator interface hands every task ONE argument (the (label, value) pair for the items flavours): a function
+        # written for that convention takes one parameter, and a call with two is not the documented call
+        self.one_argument = one_argument
 
     def __call__(self, *args):
+        if self.one_argument and len(args) != 1:
+            v = args
+            d = fp(('unexpected_call_convention', len(args)))
+            return _compute(self.mode, d, v)
         if len(args) == 2:
             k, v = args
             d = _digest_pair(k, v)
@@ -603,6 +610,11 @@ def _batch_case(rng, n=None, forced=None, threads=True):
         i, j = sorted(rng.sample(range(n), 2))
         labels[j] = labels[i]
         specs[j].name = labels[i]
+    from_frames = rng.random() < 0.3
+    if not from_frames and forced is None and rng.random() < 0.4:
+        # a Batch built from (label, Frame) pairs: the Frames' own names are something else (or nothing); the label is the Batch's
+        for i, spec in enumerate(specs):
+            spec.name = rng.choice([None, f'nm{i}', 'same'])
     op = 'apply' if forced is not None and rng.random() < 0.6 else rng.choice(_BATCH_OPS)
     if forced is not None and op == 'attr':
         op = 'apply_items'
@@ -621,7 +633,7 @@ def _batch_case(rng, n=None, forced=None, threads=True):
         exports.append('to_bus')
     return {'kind': 'batch', 'labels': labels, 'specs': specs, 'layouts': lays, 'op': op, 'attr': rng.choice(_ATTR_OPS),
             'mode': mode, 'export': rng.choice(exports),
-            'except_match': rng.random() < 0.8, 'from_frames': rng.random() < 0.3, 'name': rng.choice(_NAMES),
+            'except_match': rng.random() < 0.8, 'from_frames': from_frames, 'name': rng.choice(_NAMES),
             'max_workers': mw, 'chunksize': chunk, 'threads': threads, 'forced': forced,
             'delays': [rng.choice(_DELAY_POOL) for _ in range(8)], 'fail': fail}
 
@@ -653,10 +665,14 @@ def _store_case(rng, n=None, forced=None, fmt=None, direction=None):
             read_labels = [rng.choice(labels)]
     per_label = {}
     if fmt != 'pickle' and rng.random() < 0.6:
-        for lab in labels:
+        same_depths = rng.random() < 0.4
+        for lab, spec in zip(labels, specs):
             if rng.random() < 0.6:
-                inc = rng.random() < 0.5
-                per_label[lab] = {'include_index': inc, 'index_depth': 1 if (inc and rng.random() < 0.8) else 0}
+                inc = True if same_depths else rng.random() < 0.5
+                per_label[lab] = {'include_index': inc, 'index_depth': 1 if (inc and (same_depths or rng.random() < 0.8)) else 0}
+                if spec.cols and rng.random() < 0.6:
+                    # configs that differ in nothing but the dtypes they ask for: one column read back as text
+                    per_label[lab]['dtypes'] = {rng.choice(spec.cols): 'str'}
     slow = fmt == 'pickle' and (forced is not None or rng.random() < 0.6)
     via = 'store' if forced is not None or rng.random() < 0.75 else 'bus'
     if via == 'bus' and direction == 'read':
@@ -826,7 +842,7 @@ def _check_iter(case, ctx, tmp, out):
             plan[digests[i]] = (ident, dl, True)
     failing = any(plan[d][2] for d in digests)
     log = os.path.join(tmp, 'tasks.log')
-    task_par = Task(log, plan, mode, items, True, from_epoch=case['forced'] is not None)
+    task_par = Task(log, plan, mode, items, True, from_epoch=case['forced'] is not None, one_argument=True)
     task_seq = Task(None, plan, mode, items, False)
     seq, seq_exc = _call(lambda: _delegate(container, case, items).apply(task_seq, dtype=case['dtype'], name=case['name']))
     with _Watchdog(f'apply_pool {name}'):
@@ -1201,7 +1217,8 @@ def _store_config(case, parallel):
     default = sf.StoreConfig(**base, **wk)
     if not case['per_label']:
         return default, {}
-    m = {lab: sf.StoreConfig(index_depth=o['index_depth'], include_index=o['include_index'], **wk)
+    m = {lab: sf.StoreConfig(index_depth=o['index_depth'], include_index=o['include_index'],
+                             **({'dtypes': {k: str for k in o['dtypes']}} if o.get('dtypes') else {}), **wk)
          for lab, o in case['per_label'].items()}
     return sf.StoreConfigMap(m, default=default), case['per_label']
 
@@ -1361,7 +1378,7 @@ def _check_store(case, ctx, tmp, out):
             o = per.get(lab, {'index_depth': 1})
             ctor = sf.Frame.from_tsv if fmt == 'tsv' else sf.Frame.from_csv
             model, m_exc = _call(lambda: ctor(StringIO(members[str(lab) + ext].decode()), index_depth=o['index_depth'],
-                                              columns_depth=1, name=lab))
+                                              columns_depth=1, name=lab, **({'dtypes': {k: str for k in o['dtypes']}} if o.get('dtypes') else {})))
             if m_exc is not None:
                 ctx.tally('model', 'delimited constructor raised in the harness although both forms returned')
                 continue
